@@ -82,17 +82,20 @@ def run(run, replay=None):
                 'keep_ends': cases[len(cases) // 2]['keep']})
     run.sample({'data': list(cases[7]['data']), 'newline': cases[7]['nl'], 'keep_ends': cases[7]['keep'],
                 'no_ends': cases[7]['drop']})
-    can = []
-    pool = [c for c in cases if len(c['keep']) >= 2]
-    for k, c in enumerate(rng.sample(pool, min(8, len(pool)))):
-        z = copy.deepcopy(c)
-        z['canary_of'] = z['id']
-        z['id'] = 'canary-%d' % k
-        if k % 2:
-            z['keep'][0] = z['keep'][0][:-1]
-        else:
-            z['drop'][-1] = z['drop'][-1] + z['nl']
-        can.append(z)
+    def _mk_canaries():
+        can = []
+        pool = [c for c in cases if len(c['keep']) >= 2]
+        for k, c in enumerate(rng.sample(pool, min(8, len(pool)))):
+            z = copy.deepcopy(c)
+            z['canary_of'] = z['id']
+            z['id'] = 'canary-%d' % k
+            if k % 2:
+                z['keep'][0] = z['keep'][0][:-1]
+            else:
+                z['drop'][-1] = z['drop'][-1] + z['nl']
+            can.append(z)
+        return can
+    can = run.tolerant(_mk_canaries)
     run.judge('Trace_Split', cases + can, None, canary_ids=[c['id'] for c in can], with_tables=False,
               describe=lambda c: {'data': c['data'], 'nl': c['nl']})
     return run.finish(
